@@ -790,6 +790,8 @@ class UnitDatabase(Singleton):
             )
         else:
             self.unit_to_unit_info[unit] = info
+            # A unit previously checked as invalid for a category may now be valid.
+            self._category_unit_valid.clear()
         quantity_type_list = self.quantity_types.setdefault(quantity_type, [])
 
         if unit in [q.unit for q in quantity_type_list]:
